@@ -46,7 +46,7 @@ func runC04(r *Report) {
 	}
 	param := hto.Params[1] // connPacket
 	isThisConnID := func(v ssa.Value) bool {
-		return originSummary(v) == "field:StreamPacket.ConnectionID(param:"+param.Name()+")"
+		return originSummary(v) == "field:StreamPacket.ConnectionID(param:"+canonParamName(param)+")"
 	}
 	// ---- authorisers in the dispatcher ------------------------------------------------
 	type authz struct {
@@ -613,7 +613,7 @@ func partyOnlyPaths(start *ssa.BasicBlock, idMatch string) (eqEdges int, otherWa
 								continue
 							}
 							ho := originSummary(hb.X) + "|" + originSummary(hb.Y)
-							if strings.Contains(ho, "param:"+h.Params[idParam].Name()) && (strings.Contains(ho, "PortMapping.ListenClientID") || strings.Contains(ho, "PortMapping.TargetClientID")) {
+							if strings.Contains(ho, "param:"+canonParamName(h.Params[idParam])) && (strings.Contains(ho, "PortMapping.ListenClientID") || strings.Contains(ho, "PortMapping.TargetClientID")) {
 								trueEdge := 1
 								if pol {
 									trueEdge = 0
@@ -675,7 +675,7 @@ func lookupKeyOrigin(v ssa.Value, name string, depth int) string {
 			return ""
 		}
 		for i, hp := range h.Params {
-			if o == "param:"+hp.Name() && i < len(c.Call.Args) {
+			if o == "param:"+canonParamName(hp) && i < len(c.Call.Args) {
 				o = originSummary(c.Call.Args[i])
 			}
 		}
